@@ -241,6 +241,72 @@ theorem insertM_spec (scan : List B → Option String) (m : MP) (v : Value) (vst
         rw [h1, h3] at this
         exact this
 
+/-! ### `stringend`'s in-place re-indent: the write cursor never passes the read cursor -/
+
+theorem skipIndent_length_le : ∀ (k : Nat) (l : List B), (skipIndent k l).length ≤ l.length
+  | 0, l => Nat.le_refl _
+  | _ + 1, [] => Nat.le_refl _
+  | k + 1, c :: t => by
+    unfold skipIndent
+    split
+    · exact Nat.le_refl _
+    · exact Nat.le_trans (skipIndent_length_le k t) (Nat.le_succ _)
+
+/-- the second pass of `stringend` (`*w++ = *r++` with indentation skipped on the read side only) never produces more bytes than it
+    has read: `w ≤ r` throughout, so every write lands on a byte already read, inside `[bufstart, end)` -/
+theorem reindent_length_le : ∀ (fuel ind : Nat) (l : List B), (reindent fuel ind l).length ≤ l.length
+  | 0, _, l => Nat.le_refl _
+  | _ + 1, _, [] => Nat.le_refl _
+  | fuel + 1, ind, c :: t => by
+    have hs := skipIndent_length_le ind t
+    unfold reindent
+    by_cases hc : (c == 10) = true
+    · rw [if_pos hc]
+      simp only []
+      split
+      · rename_i a b r' heq
+        have h2 := reindent_length_le fuel ind (b :: r')
+        have h3 := reindent_length_le fuel ind (skipIndent ind t)
+        have hl : (skipIndent ind t).length = r'.length + 2 := by rw [heq]; rfl
+        simp only [List.length_cons] at h2 ⊢
+        split
+        · simp only [List.length_cons]; omega
+        · simp only [List.length_cons]; omega
+      · have h3 := reindent_length_le fuel ind (skipIndent ind t)
+        simp only [List.length_cons]; omega
+    · rw [if_neg hc]
+      have := reindent_length_le fuel ind t
+      simp only [List.length_cons]; omega
+
+theorem stripLeadingEol_length_le (l : List B) : (stripLeadingEol l).length ≤ l.length := by
+  unfold stripLeadingEol
+  split
+  · simp only [List.length_cons]; omega
+  · simp only [List.length_cons]; omega
+  · exact Nat.le_refl _
+
+theorem stripTrailingEol_length_le (l : List B) : (stripTrailingEol l).length ≤ l.length := by
+  have key : ∀ (t : List B) (k : Nat), l.reverse.length = t.length + k → t.reverse.length ≤ l.length := by
+    intro t k h
+    rw [List.length_reverse] at h ⊢
+    omega
+  unfold stripTrailingEol
+  split
+  · rename_i t heq
+    exact key t 2 (by rw [heq]; rfl)
+  · rename_i t _ heq
+    exact key t 1 (by rw [heq]; rfl)
+  · exact Nat.le_refl _
+
+/-- the string handed to `janet_string` / `janet_buffer_push_bytes` by `stringend` lies inside the scratch contents -/
+theorem dedent_length_le (col : Nat) (buf : List B) : (dedent col buf).length ≤ buf.length := by
+  unfold dedent
+  simp only []
+  refine Nat.le_trans (stripTrailingEol_length_le _) (Nat.le_trans (stripLeadingEol_length_le _) ?_)
+  split
+  · exact reindent_length_le _ _ _
+  · exact Nat.le_refl _
+
 /-! ### the comment-flag invariant through `parser/insert`; the complete API -/
 
 theorem NoCF_insTail (p : Parser) (i : Nat) (s : Frame) (v : Value) (vstr : List B) (h : NoCF p) : NoCF (insTail p i s v vstr).1 := by
